@@ -959,7 +959,7 @@ fn main() {
         "not generated on purpose (judgement): signed integers in sub-byte fields, multi-byte fields whose declared width differs from the type's size, implicit width for f32".into(),
     ];
 
-    let (batches, n_types, values) = tier.pick((1usize, 300usize, 200usize), (12, 600, 1000));
+    let (batches, n_types, values) = tier.pick((2usize, 300usize, 200usize), (12, 600, 1000));
     let seed = check.args.seed;
     let mut programs = 0u64;
 
